@@ -494,22 +494,24 @@ fn wz(pr: &Prob, w: &[f64]) -> Vec<f64> {
 }
 
 /// near-optimality, intercept mapping, predict — everything the statement says about one fit
-/// Signature refinement for a violated objective oracle: when the same fit with the iteration cap lifted
-/// (max_iter = 200000 instead of the library default 1000) meets the threshold, the cause is the exhausted
-/// iteration cap and the violation is filed under "<sig>/iteration-cap(max_iter=1000)". Chooses the signature
-/// only, never the verdict.
-fn cap_sig(c: &mut Case, model: Model, d: &Data, pr: &Prob, rf: &Reference, cfg: &Cfg, sg: &str, excess: f64, thr: f64) -> String {
+/// Signature refinement for a violated objective oracle: on designs whose columns, as seen by the optimiser
+/// (raw columns when normalisation is off), differ in norm by more than a factor 30 the interior-point
+/// iteration is known to stall or to run into max_iter; such violations are filed under
+/// "<sig>/column-norm-ratio>30". The class is derived from the input only and chooses the signature, never
+/// the verdict.
+fn cap_sig(c: &mut Case, _model: Model, _d: &Data, pr: &Prob, _rf: &Reference, _cfg: &Cfg, sg: &str, excess: f64, thr: f64) -> String {
     if !(excess > thr) {
         return sg.to_string();
     }
-    if let Some(Ok(f2)) = run_fit(c, model, &d.x, &d.xp, &d.y, cfg, 200_000, sg) {
-        let w2 = wz(pr, &f2.w);
-        if w2.iter().all(|v| v.is_finite()) && pr.primal(&w2) - rf.pval <= thr {
-            c.bucket("diagnosis:iteration-cap-exhausted");
-            return format!("{}/iteration-cap(max_iter=1000)", sg);
-        }
+    // ratio of the largest to the smallest column norm of the matrix the optimiser works on
+    let cmax = pr.cn.iter().cloned().fold(0.0f64, f64::max).sqrt();
+    let cmin = pr.cn.iter().cloned().fold(f64::INFINITY, f64::min).sqrt();
+    if cmin > 0.0 && cmax / cmin > 30.0 {
+        c.bucket("diagnosis:objective-violation-on-ill-scaled-columns");
+        format!("{}/column-norm-ratio>30", sg)
+    } else {
+        sg.to_string()
     }
-    sg.to_string()
 }
 
 fn check_fit(c: &mut Case, model: Model, d: &Data, pr: &Prob, rf: &Reference, cfg: &Cfg, f: &Fit, sg: &str) {
@@ -659,6 +661,17 @@ fn enet_rho1(c: &mut Case) {
         }
     }
     if let (Some(fe), Some(fl)) = (&fe, &fl) {
+        {
+            // the Lasso fit itself must be near-optimal before the two fits are compared with each other
+            let wl0 = wz(&pr, &fl.w);
+            let exl = pr.primal(&wl0) - rf.pval;
+            let thr_l = excess_threshold(&pr, &rf, &d.y, cfg.tol);
+            let sg_l = sig_of(Model::Lasso, &d, &cfg);
+            let sg_lo = cap_sig(c, Model::Lasso, &d, &pr, &rf, &cfg, &sg_l, exl, thr_l);
+            if !c.ratio("lasso.objective", exl, thr_l, &sg_lo, || format!("F(w_lasso) exceeds the certified optimum {:e} (tol {:e})", rf.pval, cfg.tol)) {
+                return;
+            }
+        }
         let (we, wl) = (wz(&pr, &fe.w), wz(&pr, &fl.w));
         let dw: Vec<f64> = (0..pr.p).map(|j| we[j] - wl[j]).collect();
         let thr = coef_slack(&pr, &rf, &d.y, cfg.tol, smin, norm2v(&wl));
